@@ -17,7 +17,10 @@ Both are switchable (`numOk := fun _ => true`, `strictIdx := false`: nothing ass
 that the sites they close can be left open instead.
 * plan (`fnById`): a call outside the bodies of functions the optimisation plan removes is bound to
   a function the plan keeps.  `resolve_ok` is about `plan := none`; `ok_plan_block` adds a plan under
-  the decidable side condition `keptBlock plan`.
+  the decidable side condition `keptBlock plan` (EVERY kept function calls kept functions only).
+  That condition is stronger than what the plan of the real analyses delivers (a definition in dead
+  code is kept, what only it calls is removed); `Lemmas/BridgeReach.lean` generalises it to a
+  call-closed set of functions (`KeptReach`, `ok_reach_block`), of which `keptBlock` is an instance.
 -/
 namespace NaijaVerif.Bridge
 open NaijaVerif NaijaVerif.Resolve
